@@ -211,7 +211,7 @@ fn ops(quick: bool) -> Vec<Op> {
     });
     v.push(Op {
         name: "msm (bls12_381 G1, ed_on_bls12_381)",
-        shapes: if quick { vec![0, 1, 2, 15, 31, 32, 33, 100, 513] } else { vec![0, 1, 2, 15, 31, 32, 33, 100, 513, 2048, 5000] },
+        shapes: if quick { vec![0, 1, 2, 15, 31, 32, 33, 100, 513, 2049] } else { vec![0, 1, 2, 15, 31, 32, 33, 100, 513, 2048, 5000] },
         run: Box::new(|rng, n| {
             let bases: Vec<G1A> = (0..n).map(|i| if i % 7 == 6 { G1A::zero() } else { (G1A::generator() * Fr::rand(rng)).into_affine() }).collect();
             let scalars: Vec<Fr> = rand_vec(rng, n, true);
